@@ -1417,6 +1417,9 @@ func (m *Manager) AddPoolTransactions(txns []types.Transaction) (known bool, err
 		return known, err
 	}
 
+	// remember the pool as it is: if a transaction of the set conflicts with
+	// the pool, the transactions of the set added before it must be removed again
+	prevLen, prevWeight := len(m.txpool.txns), m.txpool.weight
 	for _, txn := range txns {
 		txid := txn.ID()
 		if _, ok := m.txpool.indices[txid]; ok {
@@ -1424,6 +1427,11 @@ func (m *Manager) AddPoolTransactions(txns []types.Transaction) (known bool, err
 		}
 		ts := m.store.SupplementTipTransaction(txn)
 		if err := consensus.ValidateTransaction(m.txpool.ms, txn, ts); err != nil {
+			for _, added := range m.txpool.txns[prevLen:] {
+				delete(m.txpool.indices, added.ID())
+			}
+			m.txpool.txns = m.txpool.txns[:prevLen]
+			m.txpool.weight = prevWeight
 			m.txpool.ms = nil // force revalidation next time the pool is queried
 			return false, fmt.Errorf("transaction %v conflicts with pool: %w", txid, err)
 		}
@@ -1498,12 +1506,20 @@ func (m *Manager) AddV2PoolTransactions(basis types.ChainIndex, txns []types.V2T
 		return known, err
 	}
 
+	// remember the pool as it is: if a transaction of the set conflicts with
+	// the pool, the transactions of the set added before it must be removed again
+	prevLen, prevWeight := len(m.txpool.v2txns), m.txpool.weight
 	for _, txn := range txns {
 		txid := txn.ID()
 		if _, ok := m.txpool.indices[txid]; ok {
 			continue // skip transactions already in the pool
 		}
 		if err := consensus.ValidateV2Transaction(m.txpool.ms, txn); err != nil {
+			for _, added := range m.txpool.v2txns[prevLen:] {
+				delete(m.txpool.indices, added.ID())
+			}
+			m.txpool.v2txns = m.txpool.v2txns[:prevLen]
+			m.txpool.weight = prevWeight
 			m.txpool.ms = nil // force revalidation next time the pool is queried
 			return false, fmt.Errorf("transaction %v conflicts with pool: %w", txid, err)
 		}
